@@ -757,9 +757,119 @@ fn interpreter_case(cfg: &RunCfg, rep: &mut Report, world: &World, i: u64) {
 
 // ------------------------------------------------------------------ PSBT
 
+/// A script whose hash lock commits to the hash of a value that is NOT 32 bytes long, and a PSBT
+/// that carries exactly that value as the preimage: the pair is consistent (it survives
+/// serialisation, which only checks hash(value) == key), the spend is impossible, and no
+/// finalizer entry point may do anything but refuse.
+fn odd_preimage_case(rep: &mut Report, world: &World, rng: &mut Rng, i: u64) {
+    use bitcoin::hashes::{hash160, ripemd160, sha256, sha256d, Hash};
+    use bitcoin::{Transaction, TxOut};
+    let len = *rng.pick(&[0usize, 1, 19, 20, 31, 33, 64, 80]);
+    let v: Vec<u8> = (0..len).map(|j| (j as u8).wrapping_mul(7) ^ 0xa5).collect();
+    let which = rng.below(4);
+    let frag = match which {
+        0 => format!("sha256({})", hex(&sha256::Hash::hash(&v).to_byte_array())),
+        1 => format!("hash256({})", hex(&sha256d::Hash::hash(&v).to_byte_array())),
+        2 => format!("ripemd160({})", hex(&ripemd160::Hash::hash(&v).to_byte_array())),
+        _ => format!("hash160({})", hex(&hash160::Hash::hash(&v).to_byte_array())),
+    };
+    let kid = rng.below(world.keys.len());
+    let wrap = rng.below(4);
+    let key = if wrap == 3 { world.keys[kid].xonly_hex.clone() } else { world.keys[kid].compressed_hex.clone() };
+    let ms = match rng.below(3) {
+        0 => format!("and_v(v:pk({}),{})", key, frag),
+        1 => format!("or_d(pk({}),{})", key, frag),
+        _ => format!("andor({},pk({}),0)", frag, key),
+    };
+    let ds = match wrap {
+        0 => format!("wsh({})", ms),
+        1 => format!("sh(wsh({}))", ms),
+        2 => format!("sh({})", ms),
+        _ => format!("tr({},{})", world.keys[(kid + 1) % world.keys.len()].xonly_hex, ms),
+    };
+    let desc = match guarded(|| Descriptor::<DefiniteDescriptorKey>::from_str(&ds)) {
+        Ok(Ok(d)) => d,
+        _ => return,
+    };
+    let utxo = TxOut { value: bitcoin::Amount::from_sat(70_000), script_pubkey: desc.script_pubkey() };
+    let prev = Transaction {
+        version: bitcoin::transaction::Version(2),
+        lock_time: bitcoin::absolute::LockTime::ZERO,
+        input: vec![bitcoin::TxIn { previous_output: bitcoin::OutPoint::null(), script_sig: ScriptBuf::from_bytes(vec![0x01, 0x07]), sequence: bitcoin::Sequence::MAX, witness: Witness::new() }],
+        output: vec![utxo.clone()],
+    };
+    let tx = Transaction {
+        version: bitcoin::transaction::Version(2),
+        lock_time: bitcoin::absolute::LockTime::ZERO,
+        input: vec![bitcoin::TxIn { previous_output: bitcoin::OutPoint { txid: prev.compute_txid(), vout: 0 }, script_sig: ScriptBuf::new(), sequence: bitcoin::Sequence(0xffff_fffd), witness: Witness::new() }],
+        output: vec![TxOut { value: bitcoin::Amount::from_sat(60_000), script_pubkey: ScriptBuf::from_bytes(vec![0x6a, 0x01, 0x2a]) }],
+    };
+    let mut psbt = match Psbt::from_unsigned_tx(tx) {
+        Ok(p) => p,
+        Err(_) => return,
+    };
+    if wrap == 2 {
+        psbt.inputs[0].non_witness_utxo = Some(prev);
+    } else {
+        psbt.inputs[0].witness_utxo = Some(utxo);
+    }
+    let _ = guarded(std::panic::AssertUnwindSafe(|| psbt.update_input_with_descriptor(0, &desc).is_ok()));
+    // the key signs (the library computes the message)
+    if rng.chance(2, 3) {
+        let secp = &world.secp;
+        let mut cache = bitcoin::sighash::SighashCache::new(psbt.unsigned_tx.clone());
+        if wrap == 3 {
+            let leaves: Vec<_> = psbt.inputs[0].tap_scripts.values().map(|(sc, ver)| bitcoin::taproot::TapLeafHash::from_script(sc, *ver)).collect();
+            for lh in leaves {
+                if let Ok(Ok(msg)) = guarded(std::panic::AssertUnwindSafe(|| psbt.sighash_msg(0, &mut cache, Some(lh)).map(|m| m.to_secp_msg()))) {
+                    let kp = bitcoin::secp256k1::Keypair::from_secret_key(secp, &world.keys[kid].sk);
+                    let sig = secp.sign_schnorr_no_aux_rand(&msg, &kp);
+                    psbt.inputs[0].tap_script_sigs.insert((world.keys[kid].xonly, lh), bitcoin::taproot::Signature { signature: sig, sighash_type: bitcoin::TapSighashType::Default });
+                }
+            }
+        } else if let Ok(Ok(msg)) = guarded(std::panic::AssertUnwindSafe(|| psbt.sighash_msg(0, &mut cache, None).map(|m| m.to_secp_msg()))) {
+            let sig = secp.sign_ecdsa(&msg, &world.keys[kid].sk);
+            psbt.inputs[0].partial_sigs.insert(bitcoin::PublicKey::new(world.keys[kid].pk), bitcoin::ecdsa::Signature { signature: sig, sighash_type: bitcoin::EcdsaSighashType::All });
+        }
+    }
+    let inp = &mut psbt.inputs[0];
+    inp.sha256_preimages.insert(sha256::Hash::hash(&v), v.clone());
+    inp.hash256_preimages.insert(sha256d::Hash::hash(&v), v.clone());
+    inp.ripemd160_preimages.insert(ripemd160::Hash::hash(&v), v.clone());
+    inp.hash160_preimages.insert(hash160::Hash::hash(&v), v.clone());
+    let bytes = psbt.serialize();
+    let input = format!("preimage of {} bytes for {}; psbt {}", len, ds, hex(&bytes));
+    let mut m = Mon::begin(rep, i, "psbt", input, bytes.len());
+    let p0 = match m.probe("Psbt::deserialize", &|| Psbt::deserialize(&bytes).ok()) {
+        Some(Some(p)) => p,
+        _ => {
+            rep.count("psbt-odd-preimage: not deserializable");
+            return;
+        }
+    };
+    let secp = &world.secp;
+    let r = m.probe("PsbtExt::finalize", &|| {
+        let mut a = p0.clone();
+        let mut b = p0.clone();
+        let mut c = p0.clone();
+        let mut d = p0.clone();
+        (a.finalize_mut(secp).is_ok(), b.finalize_mall_mut(secp).is_ok(), c.finalize_inp_mut(secp, 0).is_ok(), d.finalize_inp_mall_mut(secp, 0).is_ok(), p0.clone().finalize(secp).is_ok())
+    });
+    rep.count(match r {
+        Some((false, false, false, false, false)) => "psbt-odd-preimage: every finalizer refuses",
+        Some(_) => "psbt-odd-preimage: some finalizer succeeded (no hash lock on the path)",
+        None => "psbt-odd-preimage: probe failed",
+    });
+    rep.nontrivial(&format!("psbt-odd|{}|{}", ds, len));
+}
+
 fn psbt_case(cfg: &RunCfg, rep: &mut Report, world: &World, i: u64) {
     use super::c14::{apply, build_setup, fresh_psbt, Op};
     let mut rng = cfg.case_rng(i);
+    if rng.chance(1, 12) {
+        odd_preimage_case(rep, world, &mut rng, i);
+        return;
+    }
     let s = match build_setup(&mut rng, world, cfg.tier) {
         Some(s) => s,
         None => return,
@@ -840,32 +950,15 @@ fn psbt_case(cfg: &RunCfg, rep: &mut Report, world: &World, i: u64) {
                 }
             }
             9 => {
-                // preimages of the wrong length under the hashes the script really uses (all four kinds)
-                let mut ids = s.inputs[k].case.pre_ids();
-                if ids.is_empty() || rng.chance(1, 4) {
-                    ids.push(0);
-                }
-                for id in ids {
-                    let pi = &world.pre[id];
-                    let which = rng.below(5);
-                    let mut len = || *rng.pick(&[0usize, 1, 20, 31, 33, 64, 521]);
-                    if which == 0 || which == 4 {
-                        let n = len();
-                        inp.sha256_preimages.insert(bitcoin::hashes::sha256::Hash::from_byte_array(pi.sha256), vec![0x5a; n]);
-                    }
-                    if which == 1 || which == 4 {
-                        let n = len();
-                        inp.hash256_preimages.insert(bitcoin::hashes::sha256d::Hash::from_byte_array(pi.hash256), vec![0x5a; n]);
-                    }
-                    if which == 2 || which == 4 {
-                        let n = len();
-                        inp.ripemd160_preimages.insert(bitcoin::hashes::ripemd160::Hash::from_byte_array(pi.ripemd160), vec![0x5a; n]);
-                    }
-                    if which == 3 || which == 4 {
-                        let n = len();
-                        inp.hash160_preimages.insert(bitcoin::hashes::hash160::Hash::from_byte_array(pi.hash160), vec![0x5a; n]);
-                    }
-                }
+                // preimage entries of odd lengths; the pairs are consistent (hash(value) == key), or
+                // deserialisation would drop the PSBT before the library sees it
+                use bitcoin::hashes::Hash;
+                let n = *rng.pick(&[0usize, 1, 20, 31, 33, 64, 521]);
+                let v = vec![0x5a; n];
+                inp.sha256_preimages.insert(bitcoin::hashes::sha256::Hash::hash(&v), v.clone());
+                inp.hash256_preimages.insert(bitcoin::hashes::sha256d::Hash::hash(&v), v.clone());
+                inp.ripemd160_preimages.insert(bitcoin::hashes::ripemd160::Hash::hash(&v), v.clone());
+                inp.hash160_preimages.insert(bitcoin::hashes::hash160::Hash::hash(&v), v);
             }
             10 => inp.tap_internal_key = other.tap_internal_key.or(Some(world.keys[rng.below(8)].xonly)),
             11 => inp.tap_merkle_root = Some(bitcoin::taproot::TapNodeHash::from_byte_array([rng.below(256) as u8; 32])),
